@@ -539,7 +539,10 @@ void verif::verif_case(Rng & rng, long idx, const std::string & tier) {
         case 6: banditCase(rng, rng.range(1, nops), rng.coin(1, 5) ? 1 : 0, junk); std::printf("#stat bandit 1\n"); break;
         case 7: fbanditCase(rng, rng.range(1, nops), rng.coin(1, 5) ? 1 : 0, junk); std::printf("#stat fbandit 1\n"); break;
         case 8: case 9: coopCase(rng, rng.range(1, nops), rng.coin(1, 5) ? 1 : 0, junk, rng.coin(1, 3)); std::printf("#stat coop 1\n"); break;
-        case 10: thompsonCase<M::Experience>("ThompsonModel", rng, rng.range(0, nops), rng.coin(1, 5) ? 1 : 0); std::printf("#stat thompson 1\n"); break;
+        case 10:
+            if (rng.coin(2, 3)) { thompsonCase<M::Experience>("ThompsonModel", rng, rng.range(0, nops), rng.coin(1, 5) ? 1 : 0); std::printf("#stat thompson 1\n"); }
+            else { thompsonCase<GenericExperience>("ThompsonModel<generic>", rng, rng.range(0, nops), rng.coin(1, 5) ? 1 : 0); std::printf("#stat thompson_generic 1\n"); }   // element-wise gamma branch
+            break;
     }
 }
 
